@@ -99,6 +99,9 @@ pub(crate) struct TransactionLogger {
     tid: TransactionId,
     pager: SharedPager,
     last_lsn: Arc<RwLock<u64>>,
+    /// Restart recovery replays the log through the ordinary executors; what it replays must not be appended
+    /// to the log it is reading.
+    silent: bool,
 }
 
 impl Clone for TransactionLogger {
@@ -107,6 +110,7 @@ impl Clone for TransactionLogger {
             tid: self.tid,
             pager: self.pager.clone(),
             last_lsn: Arc::clone(&self.last_lsn),
+            silent: self.silent,
         }
     }
 }
@@ -117,8 +121,16 @@ impl TransactionLogger {
             tid: xid,
             pager,
             last_lsn: Arc::new(RwLock::new(last_lsn)),
+            silent: false,
         }
     }
+
+    /// The same logger, writing nothing (used by restart recovery).
+    pub(crate) fn silenced(mut self) -> Self {
+        self.silent = true;
+        self
+    }
+
     pub(crate) fn log_commit(&self) -> RuntimeResult<()> {
         self.log_operation(Commit)?;
         Ok(())
@@ -141,6 +153,9 @@ impl TransactionLogger {
     }
 
     fn log_operation<O: Operation>(&self, operation: O) -> RuntimeResult<()> {
+        if self.silent {
+            return Ok(());
+        }
         let new_last_lsn =
             self.pager
                 .write()
